@@ -138,7 +138,7 @@ contract(F + "Alignment.gamma_k_disorder#not-combined",
 contract(F + "Alignment.disorder", params={"self": ALIGN()}, returns=RealT(), is_property=True, modifies=["self._disorder"],
          requires=["not isnone(self._disorder)"],
          ensures=[cl("result == some(old(self._disorder)) and self._disorder == old(self._disorder)", "C03 C05", name="the-cached-value")],
-         notes="the uncached branch (sum of unitary disorders over the mean number of units) is exercised by the bounded stand-in of C03",
+         notes="the uncached branch (sum of unitary disorders over the mean number of units) is the variant Alignment.disorder#lazy (contracts/lazy.py)",
          serves={"C03", "C05", "C10"})
 
 # ------------------------------------------------------------------------------------------ take_until_limit  (C10: progress of the fast alignment)
